@@ -2,6 +2,7 @@ import EaselModel.Core.Proto
 import EaselModel.Buffer.Model
 import EaselModel.Buffer.SpecHist
 import EaselModel.Buffer.Safe
+import EaselModel.Buffer.MemSpecStep
 import EaselModel.Buffer.MemDriver  -- round4-mem
 import EaselModel.Buffer.OpenDriver -- round4-open
 /-! Line-protocol driver for the C05 model (esl_buffer.c).
@@ -15,6 +16,7 @@ import EaselModel.Buffer.OpenDriver -- round4-open
       the `spec=`/`valid=` side channel is dropped: outside the contract the specification is `Total`, not `specStep`)
 
   answer: `<status> <hex bytes> n=<count> off=<offset after the op>[ z=1][ moved=1] spec=<status>,<hex>,<off> valid=<0|1>`
+  (after the first try-op, on a whole-input buffer: ` mspec=<status>,<hex>,<off>` = the observation `memStep` prescribes)
   where `spec=` is the observation `specStep` prescribes and `valid=` says whether the op is inside the API contract
   `Valid ps` in the specification state reached so far (both are about the specification, not the model). -/
 open EaselModel.Proto EaselModel.Buffer
@@ -87,7 +89,8 @@ def stepLine (st : Option DState) (line : String) : Option DState × String :=
         | some k => (List.replicate k unit).flatten
         | none => unit
       let s : Sess := { b := openBuf m ps src }
-      (some { s := s, a := AState.init src, P := if ps0 = 0 then 512 else ps0 }, fmt { st := .ok } s)
+      -- wild=1: a history outside the API contract from the start (no `spec=`/`valid=` side channel; `mspec=` on whole-input buffers)
+      (some { s := s, a := AState.init src, P := if ps0 = 0 then 512 else ps0, wild := (argNat? ws "wild") == some 1 }, fmt { st := .ok } s)
     | _, _, _ => (st, "bad-op")
   else if ws.head? == some "fsopen" then -- round4-open
     match EaselModel.Buffer.OpenDriver.openLine ws with -- round4-open
@@ -105,7 +108,7 @@ def stepLine (st : Option DState) (line : String) : Option DState × String :=
     | some d, some op =>
       let isTry := (ws.head?.getD "").startsWith "try"
       if isTry && !callerOkB d.s op then
-        (some { d with s := { d.s with lastp := none }, wild := true }, "unsafe")
+        (some { d with s := { d.s with lastp := none }, a := { d.a with lastp := none }, wild := true }, "unsafe")
       else
       let d := if isTry then { d with wild := true } else d
       let (o0, s0) := d.s.step op
@@ -115,6 +118,13 @@ def stepLine (st : Option DState) (line : String) : Option DState × String :=
       let v := validB d.P d.a op
       let (so, a') := specStep d.a op
       let a' := if null then { a' with lastp := none } else a'
+      if d.wild && !d.s.b.hasfp then
+        -- outside the contract on a whole-input buffer the specification is the total function `memStep` (theorem history_memory_exact)
+        let (mo, ma) := memStep d.a op
+        let ma := if null then { ma with lastp := none } else ma
+        (some { d with s := s', a := ma },
+         fmt o s' ++ " mspec=" ++ stName mo.st ++ "," ++ hexOrDash (if null then [] else mo.bytes) ++ "," ++ toString mo.off)
+      else
       if d.wild then (some { d with s := s', a := a' }, fmt o s') else
       (some { d with s := s', a := a' },
        fmt o s' ++ " spec=" ++ stName so.st ++ "," ++ hexOrDash (if null then [] else so.bytes) ++ "," ++ toString so.off
